@@ -448,6 +448,8 @@ def view_tie(hm, out, items, limit=400):
         n += 1
         try:
             va = hm.model.call(["hook_view", H.jsx(json.loads(it.text))])
+            if n % 40 == 1:     # a few of them are re-evaluated inside Coq (vm_compute) by the caller's coq_crosscheck
+                out.xview = getattr(out, "xview", []) + [(hm.model.last_request, [], va)]
             vb = hm.model.call(["hook_view", H.jsx(json.loads(it.twin))])
         except lib.ModelError as e:
             out.disagreements.append({"correspondence": "Hook host_view <-> placement stream", "model": f"error {e}", "stdin": it.text[:500]})
